@@ -796,3 +796,119 @@ class ConditionSetPipeline(Contract):
 
     def frame_ok(self, I, inp, obj, name):
         return obj is inp["self"] and name == "_pipeline"
+
+
+# ----------------------------------------------------------------------------------------------- include / exclude fields in regular-expression mode
+CF = "sigma.processing.conditions.fields"
+
+
+@register
+class FieldConditionPostInit(Contract):
+    """IncludeFieldCondition.__post_init__ (also exclude_fields): in `re` mode ONE compiled pattern per configured pattern, each compiled
+    from exactly that text, in order (patterns are independent: inline flags and group numbers of one do not reach another); `plain`
+    compiles nothing; any other mode is a configuration error"""
+    id = "C13.IncludeFieldCondition.__post_init__"
+    target = f"{CF}:IncludeFieldCondition.__post_init__"
+    props = ("C13",)
+    cases = tuple((mode, n) for mode in ("re", "plain") for n in (0, 1, 3)) + (("bogus", 1),)
+
+    def setup(self, E):
+        E._c13c_compiled = []
+        E.externals["re.compile"] = lambda I, a, k: (E._c13c_compiled.append((list(a), dict(k))), SObj("Compiled", {"of": a[0], "n": len(E._c13c_compiled)}))[1]
+
+    def args(self, I, case):
+        mode, n = case
+        del I.E._c13c_compiled[:]
+        pats = [I.fresh(f"pattern{i}", "str") for i in range(n)]
+        me = SObj(I.E.index.lookup(f"{CF}:IncludeFieldCondition"), {"fields": list(pats), "mode": mode, "patterns": []}, lazy=True)
+        return {"self": me, "args": [], "pats": pats, "case": case}
+
+    def post(self, I, inp, r):
+        mode, n = inp["case"]
+        c = I.ctx
+        c.require(mode in ("re", "plain"), "an unknown mode is rejected")
+        got = inp["self"].fields.get("patterns")
+        if mode == "plain":
+            c.require(I.E._c13c_compiled == [] and got == [], "plain mode compiles nothing")
+            return
+        got = I.force(got) if not isinstance(got, list) else got
+        c.require(isinstance(got, list) and len(got) == n and all(isinstance(g, SObj) and g.cls == "Compiled" and g.fields["of"] is p for g, p in zip(got, inp["pats"])), "one compiled pattern per configured pattern, from exactly that text, in order")
+        c.require(len(I.E._c13c_compiled) == n and all(len(a) == 1 and not k for a, k in I.E._c13c_compiled), "each pattern is compiled on its own, without extra flags")
+
+    def raises(self, I, inp, exc):
+        I.ctx.require(inp["case"][0] == "bogus" and exc_is(I, exc, "SigmaConfigurationError"), f"SigmaConfigurationError for an unknown mode only (got {exc_name(exc)})")
+
+    def frame_ok(self, I, inp, obj, name):
+        return obj is inp["self"] and name == "patterns"
+
+
+def _mk_re_field(clsname, negate):
+    class C(Contract):
+        __doc__ = f"{clsname}.match_field_name in `re` mode: {'not ' if negate else ''}(a field name is given and SOME configured pattern matches it from its start)"
+        id = f"C13.{clsname}.match_field_name[re]"
+        target = f"{CF}:{clsname}.match_field_name"
+        props = ("C13",)
+        cases = (0, 1, 3)
+        assumed = ["compiled patterns are abstract: pattern.match(field) is a symbolic verdict per pattern"]
+
+        def args(self, I, case):
+            asked = []
+            vs = [I.fresh(f"pattern{i}_matches", "bool") for i in range(case)]
+            pats = [SObj("Compiled", {"match": NativeFn("match", (lambda i: lambda I2, a, k: (asked.append((i, a[0])), SOpt(z3.Not(vs[i].t), SObj("Match", {})))[1])(i))}) for i in range(case)]
+            fld = SOpt(z3.Bool(I.ctx.fresh_name("field_none")), I.fresh("field", "str"))
+            me = SObj(I.E.index.lookup(f"{CF}:{clsname}"), {"fields": ["x"] * case, "mode": "re", "patterns": pats}, lazy=True)
+            return {"self": me, "args": [fld], "vs": vs, "fld": fld, "asked": asked}
+
+        def post(self, I, inp, r):
+            f = inp["fld"]
+            spec = z3.And(z3.Not(f.is_none), ops.mk_or([v.t for v in inp["vs"]]))
+            I.ctx.require(ops.mk_bool_term(ops.truth(I, r)) == (z3.Not(spec) if negate else spec), ("not " if negate else "") + "(field given and some pattern matches)")
+
+        def frame_ok(self, I, inp, obj, name):
+            return False
+    C.__name__ = f"ReField_{clsname}"
+    return C
+
+
+register(_mk_re_field("IncludeFieldCondition", False))
+register(_mk_re_field("ExcludeFieldCondition", True))
+
+
+@register
+class MatchValueConditionValue(Contract):
+    """MatchValueCondition.match_value: what the VALUE's own equality says about the configured plain value (strings, case-sensitive
+    strings, numbers, timestamp parts, booleans alike); a value that cannot be compared with it does not match"""
+    id = "C13.MatchValueCondition.match_value"
+    target = "sigma.processing.conditions.values:MatchValueCondition.match_value"
+    props = ("C13",)
+    cases = tuple((cls, out) for cls in ("SigmaString", "SigmaCasedString", "SigmaNumber", "SigmaTimestampPart", "SigmaBool", "SigmaNull") for out in ("verdict", "not-comparable"))
+
+    def setup(self, E):
+        for n in ("SigmaString", "SigmaNumber", "SigmaBool", "SigmaNull"):        # whatever the condition pre-computes from its configuration is abstract
+            E.summaries[f"sigma.types:{n}"] = (lambda n: lambda I, so, a, k: SObj(I.E.index.lookup(f"sigma.types:{n}"), {"configured": a[0] if a else None}, lazy=True))(n)
+
+    def args(self, I, case):
+        from pyvc.interp import PyRaise
+        cls, out = case
+        verdict = I.fresh("values_equal", "bool")
+        asked = []
+
+        def eq(I2, a, k):
+            asked.append(a[0])
+            if out == "not-comparable":
+                raise PyRaise(ExcValue("NotImplementedError", ("cannot compare",)))
+            return verdict
+        cfg = I.fresh("configured_value", "str")
+        val = SObj(I.E.index.lookup(f"sigma.types:{cls}"), {"__eq__": NativeFn("__eq__", eq)}, lazy=True)
+        me = SObj(I.E.index.lookup("sigma.processing.conditions.values:MatchValueCondition"), {"cond": "any", "value": cfg}, lazy=True)
+        return {"self": me, "args": [val], "verdict": verdict, "asked": asked, "cfg": cfg, "case": case}
+
+    def post(self, I, inp, r):
+        cls, out = inp["case"]
+        if out == "not-comparable":
+            I.ctx.require(r is False, "a value that cannot be compared does not match")
+        else:
+            I.ctx.require(len(inp["asked"]) == 1 and ops.mk_bool_term(ops.truth(I, r)) == inp["verdict"].t, f"the verdict of the {cls} value's own equality, asked once")
+
+    def frame_ok(self, I, inp, obj, name):
+        return False
